@@ -578,6 +578,12 @@ func (aof *AppendableFile) ReadAt(bs []byte, off int64) (n int, err error) {
 		return 0, err
 	}
 
+	if int64(binary.BigEndian.Uint32(clenBs)) > aof.offset()-off-4 {
+		// the record can not be longer than the data that follows its length,
+		// memory is not allocated based on an unchecked length
+		return 0, io.EOF
+	}
+
 	cBs := make([]byte, binary.BigEndian.Uint32(clenBs))
 	_, err = aof.readAt(cBs, off+4)
 	if err != nil {
